@@ -230,8 +230,28 @@ def run(ctx):
                           f"skips the unique-name/context/callback cleanup", key=f"raw task creation {d}", node=n, rel=u.rel)
 
     # R14.4 task.executor --------------------------------------------------------------------------------------------
-    ctx.rule("R14.7", "done callbacks that add or remove callbacks of the finishing task do not disturb the others: every remaining callback still runs once, run_coro ends normally", floor=3)
+    ctx.rule("R14.7", "done callbacks that add or remove callbacks of the finishing task do not disturb the others: every remaining callback still runs once, run_coro ends normally and forgets every name", floor=4)
     callback_mutation_table(ctx, program, "R14.7")
+
+    ctx.rule("R14.8", "the reaper and waiter service loops survive a failing command: after any exception of one iteration the next command is still taken from the queue", floor=2)
+    for uid, q in (("function.py::Function.init.task_reaper", "reaper_q.get"), ("function.py::Function.init.task_waiter", "waiter_q.get")):
+        pol = FlowPolicy(program, may_raise_all=True, cancel=False, events=[q], record_atoms=False, no_raise={q})
+        pol.trace_handlers = True
+        pol.loop_unroll = 2
+        out = run_flow(program, uid, pol)
+        dead, n_handled = [], 0
+        for k, c, d in exits(out):
+            evs = [e for e in c.trace if (e[0] == "call" and e[1] == q) or (e[0] == "handler" and len(e) > 3 and e[3] == "Exception")]
+            hs = [i for i, e in enumerate(evs) if e[0] == "handler"]
+            if hs:
+                n_handled += 1
+                if not any(e[0] == "call" for e in evs[hs[0] + 1:]):
+                    dead.append(f"{k} after the handler at line {evs[hs[0]][1]}")
+            if k == "raise" and getattr(c.env.get("$exc"), "cls", "") == "Exception":
+                dead.append(f"escapes: {d}")
+        ctx.check(n_handled > 0 and not dead, "R14.8", uid, "the loop continues after a failing command",
+                  msg=f"{uid}: an exception while processing one command ends the loop ({sorted(set(dead))[:2]}): no later task.cancel / task.unique / shutdown wait is ever served "
+                  f"(callers asking to be cancelled sleep for ever)", key="service loop survives", node=program.func(uid), rel="function.py")
 
     ctx.rule("R14.6", "task.cancel hands a task to the reaper only when its wrapper has registered it (a task cancelled before its first step never runs its cleanup)", floor=8)
     cancel_table(ctx, program, "R14.6")
@@ -333,7 +353,7 @@ def callback_mutation_table(ctx, program, rid):
     def info():
         return ListV((ObjV("actx", "AstEval"), ListV((), "tuple"), DictV([])), "list")
 
-    for mutate in (None, "remove", "add"):
+    for mutate in (None, "remove", "add", "claim"):
         def call_func(i, n, a, k, c, o, mutate=mutate):
             cb = a[0]
             c = c.hset("$ran", ListV(c.heap.get("$ran", ListV(())).items + (cb,)))
@@ -343,6 +363,10 @@ def callback_mutation_table(ctx, program, rid):
                 cbs = ent.get(Const("cb"))
                 if mutate == "remove":   # task.remove_done_callback(this_task, cb2) called by cb1
                     cbs2 = DictV([(k2, v) for k2, v in cbs.items if k2 != Const("cb2")])
+                elif mutate == "claim":  # task.unique("x") called by cb1: the finishing task becomes the owner of a name
+                    cbs2 = cbs
+                    c = c.hset("Function.unique_task2name", c.heap["Function.unique_task2name"].set(Const("T"), ListV((Const("ctx.x"),), "set")))
+                    c = c.hset("Function.unique_name2task", c.heap["Function.unique_name2task"].set(Const("ctx.x"), Const("T")))
                 else:                    # task.add_done_callback(this_task, cb4) called by cb1
                     cbs2 = cbs.set(Const("cb4"), info())
                 c = c.hset("Function.task2cb", t2cb.set(Const("T"), ent.set(Const("cb"), cbs2)))
@@ -362,6 +386,10 @@ def callback_mutation_table(ctx, program, rid):
                 bad = f"callbacks run: {ran}"
             elif c.heap.get("Function.task2cb") != DictV([]):
                 bad = f"the task's callback table is not forgotten: {c.heap.get('Function.task2cb')!r}"
-        what = {None: "callbacks leave the table alone", "remove": "the first callback removes the second one", "add": "the first callback adds a fourth one"}[mutate]
+            elif c.heap.get("Function.unique_task2name") != DictV([]) or c.heap.get("Function.unique_name2task") != DictV([]):
+                bad = (f"a finished task still owns unique names: {c.heap.get('Function.unique_name2task')!r} - names claimed by user code that runs for the task (a done callback) "
+                       f"must be released too, so the release has to come after the last callback")
+        what = {None: "callbacks leave the table alone", "remove": "the first callback removes the second one", "add": "the first callback adds a fourth one",
+                "claim": "the first callback claims a unique name (task.unique) for the finishing task"}[mutate]
         ctx.check(bool(ex) and bad is None, rid, RUN_CORO, f"three done callbacks, {what}", msg=f"run_coro with three done callbacks where {what}: {bad or 'no exit'} - "
                   f"the remaining callbacks are skipped and the task ends with an exception", key=f"callback mutation {mutate}", node=fn, rel="function.py")
